@@ -49,7 +49,7 @@ var fnWhitelist = map[string][]string{
 		"Info.Validate", "Export.Validate", "isContainedIn", "Exports.Validate", "Exports.HasExportContainingSubject", "Mapping.Validate",
 		"CreateValidationResults", "ResponsePermission.Validate", "Permissions.Validate",
 		"OperatorLimits.IsEmpty", "OperatorLimits.Validate", "ExternalAuthorization.Validate",
-		"UserScope.Validate", "SigningKeys.Validate", "Account.Validate", "AccountClaims.Validate", "GenericClaims.Validate", "AuthorizationRequestClaims.Validate", "AuthorizationResponseClaims.Validate", "TimeRange.Validate", "Limits.Validate", "User.Validate", "UserClaims.Validate", "ParseServerVersion", "Operator.validateAccountServerURL", "ValidateOperatorServiceURL", "Operator.validateOperatorServiceURLs", "Operator.Validate", "OperatorClaims.Validate", "OperatorClaims.ExpectedPrefixes", "AccountClaims.ExpectedPrefixes", "UserClaims.ExpectedPrefixes", "ActivationClaims.ExpectedPrefixes", "AuthorizationRequestClaims.ExpectedPrefixes", "AuthorizationResponseClaims.ExpectedPrefixes", "GenericClaims.ExpectedPrefixes", "v1OperatorClaims.migrateV1", "v1UserClaims.migrateV1", "v1ActivationClaims.migrateV1", "SigningKeys.Add", "v1AccountClaims.migrateV1", "v1OperatorClaims.Migrate", "v1UserClaims.Migrate", "v1ActivationClaims.Migrate", "v1AccountClaims.Migrate", "loadOperator", "loadAccount", "loadUser", "loadActivation", "loadAuthorizationRequest", "loadAuthorizationResponse", "loadClaims", "ClaimsData.verify", "parseHeaders", "Decode", "UserClaims.Encode", "ActivationClaims.Encode", "OperatorClaims.Encode", "AccountClaims.Encode", "GenericClaims.Encode", "AuthorizationRequestClaims.Encode", "AuthorizationResponseClaims.Encode", "OperatorClaims.updateVersion", "AccountClaims.updateVersion", "UserClaims.updateVersion", "ActivationClaims.updateVersion", "AuthorizationRequestClaims.updateVersion", "AuthorizationResponseClaims.updateVersion", "DecodeOperatorClaims", "DecodeAccountClaims", "DecodeUserClaims", "DecodeAuthorizationRequestClaims", "DecodeAuthorizationResponseClaims", "UserScope.ValidateScopedSigner", "NewUserClaims", "UserClaims.SetScoped", "UserScope.SigningKey", "SigningKeys.AddScopedSigner", "SigningKeys.GetScope", "SigningKeys.Remove", "SigningKeys.Keys", "DecodeGeneric", "IssueUserJWT", "Exports.Len", "Exports.Less", "Imports.Len", "Imports.Less", "ActivationClaims.HashID", "AccountClaims.ClaimType", "ActivationClaims.ClaimType", "AuthorizationRequestClaims.ClaimType", "AuthorizationResponseClaims.ClaimType", "IsGenericClaimType", "OperatorClaims.ClaimType", "UserClaims.ClaimType", "NewAccountClaims", "NewActivationClaims", "NewAuthorizationRequestClaims", "NewAuthorizationResponseClaims", "NewGenericClaims", "NewOperatorClaims", "NewUserScope", "ExternalAuthorization.IsEnabled", "Account.HasExternalAuthorization", "Account.EnableExternalAuthorization", "OperatorLimits.IsJSEnabled", "AccountLimits.IsUnlimited", "OperatorLimits.IsUnlimited", "UserClaims.IsBearerToken", "AccountClaims.GetTags", "OperatorClaims.GetTags", "UserClaims.GetTags", "ValidationResults.Errors", "ValidationResults.Warnings", "ExportType.String", "ScopeType.String", "Exports.Add", "Imports.Add", "Account.AddMapping", "ValidationIssue.Error",
+		"UserScope.Validate", "SigningKeys.Validate", "Account.Validate", "AccountClaims.Validate", "GenericClaims.Validate", "AuthorizationRequestClaims.Validate", "AuthorizationResponseClaims.Validate", "TimeRange.Validate", "Limits.Validate", "User.Validate", "UserClaims.Validate", "ParseServerVersion", "Operator.validateAccountServerURL", "ValidateOperatorServiceURL", "Operator.validateOperatorServiceURLs", "Operator.Validate", "OperatorClaims.Validate", "OperatorClaims.ExpectedPrefixes", "AccountClaims.ExpectedPrefixes", "UserClaims.ExpectedPrefixes", "ActivationClaims.ExpectedPrefixes", "AuthorizationRequestClaims.ExpectedPrefixes", "AuthorizationResponseClaims.ExpectedPrefixes", "GenericClaims.ExpectedPrefixes", "v1OperatorClaims.migrateV1", "v1UserClaims.migrateV1", "v1ActivationClaims.migrateV1", "SigningKeys.Add", "v1AccountClaims.migrateV1", "v1OperatorClaims.Migrate", "v1UserClaims.Migrate", "v1ActivationClaims.Migrate", "v1AccountClaims.Migrate", "loadOperator", "loadAccount", "loadUser", "loadActivation", "loadAuthorizationRequest", "loadAuthorizationResponse", "loadClaims", "ClaimsData.verify", "parseHeaders", "Decode", "UserClaims.Encode", "ActivationClaims.Encode", "OperatorClaims.Encode", "AccountClaims.Encode", "GenericClaims.Encode", "AuthorizationRequestClaims.Encode", "AuthorizationResponseClaims.Encode", "OperatorClaims.updateVersion", "AccountClaims.updateVersion", "UserClaims.updateVersion", "ActivationClaims.updateVersion", "AuthorizationRequestClaims.updateVersion", "AuthorizationResponseClaims.updateVersion", "DecodeActivationClaims", "DecodeOperatorClaims", "DecodeAccountClaims", "DecodeUserClaims", "DecodeAuthorizationRequestClaims", "DecodeAuthorizationResponseClaims", "UserScope.ValidateScopedSigner", "NewUserClaims", "UserClaims.SetScoped", "UserScope.SigningKey", "SigningKeys.AddScopedSigner", "SigningKeys.GetScope", "SigningKeys.Remove", "SigningKeys.Keys", "DecodeGeneric", "IssueUserJWT", "Exports.Len", "Exports.Less", "Imports.Len", "Imports.Less", "ActivationClaims.HashID", "AccountClaims.ClaimType", "ActivationClaims.ClaimType", "AuthorizationRequestClaims.ClaimType", "AuthorizationResponseClaims.ClaimType", "IsGenericClaimType", "OperatorClaims.ClaimType", "UserClaims.ClaimType", "NewAccountClaims", "NewActivationClaims", "NewAuthorizationRequestClaims", "NewAuthorizationResponseClaims", "NewGenericClaims", "NewOperatorClaims", "NewUserScope", "ExternalAuthorization.IsEnabled", "Account.HasExternalAuthorization", "Account.EnableExternalAuthorization", "OperatorLimits.IsJSEnabled", "AccountLimits.IsUnlimited", "OperatorLimits.IsUnlimited", "UserClaims.IsBearerToken", "AccountClaims.GetTags", "OperatorClaims.GetTags", "UserClaims.GetTags", "ValidationResults.Errors", "ValidationResults.Warnings", "ExportType.String", "ScopeType.String", "Exports.Add", "Imports.Add", "Account.AddMapping", "ValidationIssue.Error",
 	},
 	"V1": {
 		"Subject.HasWildCards", "Subject.IsContainedIn", "cleanSubject",
@@ -255,7 +255,7 @@ var nilableElems = map[string]bool{"Export": true, "Import": true}
 // opaqueFnsV1: additionally opaque in the v1compat package only
 var opaqueFnsV1 = map[string]bool{"ClaimsData.Encode": true}
 
-var opaqueFns = map[string]bool{"UserClaims.HasEmptyPermissions": true, "parseClaims": true, "ClaimsData.encode": true, "decodeString": true, "DecodeActivationClaims": true}
+var opaqueFns = map[string]bool{"UserClaims.HasEmptyPermissions": true, "parseClaims": true, "ClaimsData.encode": true, "decodeString": true}
 
 // foreignOpaque: functions of other packages that translated code may call; each becomes a field of `Opq`
 // (name, Lean type of the field, and how a two-value result is read)
@@ -3196,6 +3196,69 @@ func genFns(infos []pkgInfo) (string, string, map[string]string) {
 		// emit, callees before callers (whitelist order is the emission order; calls to later ones are unsupported)
 		var body strings.Builder
 		emitted := map[string]bool{}
+		// dependency order: a whitelisted callee (or, for a call through an interface, every whitelisted method of
+		// that name) is emitted before its caller wherever the whitelist mentions it
+		{
+			var ordered []string
+			seen := map[string]bool{}
+			var visit func(k string)
+			visit = func(k string) {
+				if seen[k] {
+					return
+				}
+				seen[k] = true
+				fi := g.fns[k]
+				if fi != nil && fi.fd != nil && fi.fd.Body != nil {
+					ast.Inspect(fi.fd.Body, func(n ast.Node) bool {
+						call, ok := n.(*ast.CallExpr)
+						if !ok {
+							return true
+						}
+						if cal := g.callee(call); cal != nil && cal.fd != nil && g.fns[cal.key] != nil {
+							visit(cal.key)
+						} else if se, ok := call.Fun.(*ast.SelectorExpr); ok {
+							if _, isI := g.ifaceOf(g.p.TypesInfo.TypeOf(se.X)); isI {
+								it, _ := g.p.TypesInfo.TypeOf(se.X).Underlying().(*types.Interface)
+								sc := g.p.Types.Scope()
+								for _, nm := range sc.Names() {
+									tn, ok := sc.Lookup(nm).(*types.TypeName)
+									if !ok || it == nil {
+										continue
+									}
+									if _, isIface := tn.Type().Underlying().(*types.Interface); isIface {
+										continue
+									}
+									if !types.Implements(tn.Type(), it) && !types.Implements(types.NewPointer(tn.Type()), it) {
+										continue
+									}
+									// the method this implementor answers with (possibly promoted from an embedded type)
+									obj, _, _ := types.LookupFieldOrMethod(types.NewPointer(tn.Type()), true, g.p.Types, se.Sel.Name)
+									fn, ok := obj.(*types.Func)
+									if !ok {
+										continue
+									}
+									rt := fn.Type().(*types.Signature).Recv().Type()
+									if pt, ok := rt.(*types.Pointer); ok {
+										rt = pt.Elem()
+									}
+									if n, ok := rt.(*types.Named); ok {
+										if k2 := n.Obj().Name() + "." + se.Sel.Name; g.fns[k2] != nil {
+											visit(k2)
+										}
+									}
+								}
+							}
+						}
+						return true
+					})
+				}
+				ordered = append(ordered, k)
+			}
+			for _, k := range keys {
+				visit(k)
+			}
+			keys = ordered
+		}
 		for _, k := range keys {
 			fi := g.fns[k]
 			text, err := g.emit(fi, emitted)
